@@ -653,28 +653,34 @@ Section WithFloats.
   Definition cam_images (cams : option table) : list txt :=
     match cams with Some l => map (fun r => cell_txt (nth 2 r CNone)) l | None => [] end.
 
+  Definition has_featfile (t : tree) (k : featkind) (key i : txt) : bool :=
+    existsb (fun p => txt_eqb (fst p) key && txt_eqb (snd p) i) (t_featfiles t k).
+
+  Fixpoint load_feat_list (t : tree) (k : featkind) (imgs : list txt) (l : list (txt * txt))
+    : result (list featset) :=
+    match l with
+    | [] => Ok []
+    | (key, text) :: l' =>
+        match read_config k text, load_feat_list t k imgs l' with
+        | Ok cfg, Ok rest =>
+            Ok ({| fs_key := key; fs_cfg := cfg; fs_images := List.filter (has_featfile t k key) imgs |} :: rest)
+        | _, _ => Err
+        end
+    end.
+
   Definition load_feat (t : tree) (cams : option table) (k : featkind) : result (option (list featset)) :=
     match t_cfg t k with
     | [] => Ok None
     | cfgs =>
         match cams with
         | None => Err                              (* assert kapture_data.records_camera is not None *)
-        | Some _ =>
-            let imgs := cam_images cams in
-            (fix go (l : list (txt * txt)) : result (option (list featset)) :=
-               match l with
-               | [] => Ok (Some [])
-               | (key, text) :: l' =>
-                   match read_config k text, go l' with
-                   | Ok cfg, Ok (Some rest) =>
-                       Ok (Some ({| fs_key := key; fs_cfg := cfg;
-                                    fs_images := List.filter (fun i => existsb (fun p => txt_eqb (fst p) key && txt_eqb (snd p) i)
-                                                                                (t_featfiles t k)) imgs |} :: rest))
-                   | _, _ => Err
-                   end
-               end) cfgs
+        | Some _ => match load_feat_list t k (cam_images cams) cfgs with Ok l => Ok (Some l) | Err => Err end
         end
     end.
+
+  Definition match_pairs (t : tree) (imgs : list txt) (kt : txt) : list (txt * txt) :=
+    map snd (List.filter (fun e => txt_eqb (fst e) kt && tmem (fst (snd e)) imgs && tmem (snd (snd e)) imgs)
+                         (t_matchfiles t)).
 
   Definition load_matches (t : tree) (cams : option table) : result (option (list (txt * list (txt * txt)))) :=
     match t_matchdirs t with
@@ -682,10 +688,7 @@ Section WithFloats.
     | dirs =>
         match cams with
         | None => Err
-        | Some _ =>
-            let imgs := cam_images cams in
-            Ok (Some (map (fun kt => (kt, map snd (List.filter (fun e => txt_eqb (fst e) kt && tmem (fst (snd e)) imgs && tmem (snd (snd e)) imgs)
-                                                              (t_matchfiles t)))) dirs))
+        | Some _ => Ok (Some (map (fun kt => (kt, match_pairs t (cam_images cams) kt)) dirs))
         end
     end.
 
@@ -833,6 +836,13 @@ Section WithFloats.
      negb (existsb (fun k => is_some (d_feat d k)) all_featkinds || is_some (d_matches d))) &&
     (negb (is_some (d_tab d FObs)) || (is_some (d_feat d KKeypoints) && is_some (d_p3d d))).
 
+  Fixpoint pairs_known (imgs : list txt) (tl : row) : bool :=
+    match tl with
+    | [] => true
+    | CStr i :: _ :: rest => tmem i imgs && pairs_known imgs rest
+    | _ => false
+    end.
+
   (* every reference is resolved inside the dataset (the readers silently drop what is not) *)
   Definition refs_ok (d : dataset) : bool :=
     let sensors := tab_or_nil d FSensors in
@@ -858,12 +868,7 @@ Section WithFloats.
         forallb (fun r => match r with
                           | _ :: CStr kt :: tail =>
                               match assoc kt (kp_map kps) with
-                              | Some imgs' => (fix ok (tl : row) : bool :=
-                                                 match tl with
-                                                 | [] => true
-                                                 | CStr i :: _ :: rest => tmem i imgs' && ok rest
-                                                 | _ => false
-                                                 end) tail
+                              | Some imgs' => pairs_known imgs' tail
                               | None => false
                               end
                           | _ => false
